@@ -69,6 +69,17 @@ def natOf (s : Str) : Nat := s.foldl (fun a c => a * 10 + (c.toNat - 48)) 0
 def upperC (c : Char) : Char := if 'a' ≤ c && c ≤ 'z' then Char.ofNat (c.toNat - 32) else c
 def upper (s : Str) : Str := s.map upperC
 
+/-- decimal digits of a natural number, most significant first (`str(n)`); fuel-recursive so that the
+    kernel can evaluate it (`decide`) -/
+def natDigits : Nat → Nat → Str → Str
+  | 0, _, acc => acc
+  | f+1, n, acc =>
+    let acc' := Char.ofNat (48 + n % 10) :: acc
+    if n / 10 = 0 then acc' else natDigits f (n / 10) acc'
+def natStr (n : Nat) : Str := natDigits (n + 1) n []
+/-- `str(i)` for an `int` -/
+def intStr (i : Int) : Str := if i < 0 then '-' :: natStr i.natAbs else natStr i.natAbs
+
 def hasDup : Str → Bool
   | [] => false
   | c :: cs => cs.contains c || hasDup cs
